@@ -172,7 +172,8 @@ impl WorkerPool {
         let mut batch = Vec::with_capacity(config.batch_size);
 
         loop {
-            if shutdown_flag.load(Ordering::Relaxed) {
+            // On shutdown, first finish the packets that were already queued (they were reported as queued)
+            if shutdown_flag.load(Ordering::Relaxed) && rx.is_empty() {
                 debug!("HTTP worker {} received shutdown signal", worker_id);
                 break;
             }
